@@ -121,7 +121,9 @@ func (or *Orchestrator) Service() *Service {
 					wg.Add(1)
 					go func(ss *Service) {
 						defer wg.Done()
-						ec.Add(ss.waitFor(ctx))
+						// the service runs on a context of its own:
+					// wait until it has actually returned.
+					ec.Add(ss.Wait())
 					}(s)
 					continue
 				}
